@@ -329,6 +329,9 @@ class _EulerBernoulli(_GroupElem):
         Nu_pg = self.Get_N_pg(matrixType)
         Nv_e_pg = self.Get_Hermitian_N_e_pg()
         dNv_e_pg = self.Get_Hermitian_dN_e_pg()  # used for rz because rz = v'
+        if dim > 1:
+            # slope along the fiber, as the beam frame (see Get_beam_B_e_pg)
+            dNv_e_pg = dNv_e_pg * self._Get_fiber_sign_e_pg()
 
         # Data
         nPe = self.nPe
